@@ -273,6 +273,7 @@ func main() {
 		th := time.Now()
 		os.Setenv("VERIF_TIER", *tier)
 		eng.tier = *tier
+		cfg.tier = *tier
 		eng.runHarness(h, fn, workers)
 		r := hres{Func: h.Func, Kernel: h.Kernel, Twin: h.Twin,
 			Paths: eng.stats.Paths - before.Paths, Obligations: eng.stats.Obligations - before.Obligations,
